@@ -108,6 +108,17 @@ def gen_cases(seed, chunk, n, tier):
                     env = {"y": y, "z": z}
                     pre = [{"out": ["x"], "op": "tensordot", "in": ["y", "z"], "params": {"axes": 0}}]
                     x = sr.tensordot(y, z, 0, preserve_array=True)
+                    if nd >= 3 and k >= 2 and rng.random() < 0.5:
+                        # three labels (odd total): split the first factor once more
+                        y1 = gen.rand_array(rng, sym, indices=idx[:1], fermi=True, static=static, dtype=dtype,
+                                            keep=keep, parity=1, label=rng.randint(20, 29))
+                        y2 = gen.rand_array(rng, sym, indices=idx[1:k], fermi=True, static=static, dtype=dtype,
+                                            keep=keep, parity=1, label=rng.randint(30, 39))
+                        if y1.parity and y2.parity and y1.blocks and y2.blocks:
+                            env = {"y1": y1, "y2": y2, "z": z}
+                            pre = [{"out": ["y"], "op": "tensordot", "in": ["y1", "y2"], "params": {"axes": 0}},
+                                   {"out": ["x"], "op": "tensordot", "in": ["y", "z"], "params": {"axes": 0}}]
+                            x = sr.tensordot(sr.tensordot(y1, y2, 0, preserve_array=True), z, 0, preserve_array=True)
             bra_type = rng.random() < 0.2 and not pre
             if bra_type:
                 # a bra-type array: the conjugate of a generated one (its label, if any, is a dual one)
@@ -274,8 +285,17 @@ def probe_known(ctx):
                       dict(probe="norm-odd-dual-label", x=ser.enc_array(x)), triggers={"odd_dual_label"}, op="norm")
 
 
+def depth2_cases(seed, chunk, n, tier):
+    """conjugate / adjoint of arrays with twice-fused legs (fermionic): model diff + validity"""
+    from .c05 import depth2_case
+    rng = random.Random(seed * 7919 + chunk * 104729 + 1010)
+    return [depth2_case(rng, fermi=True, with_conj=True, dagger=rng.random() < 0.5)[0] for _ in range(n)]
+
+
 def run(ctx):
     probe_known(ctx)
+    stream.run_stream(ctx, "depth2", "harness.props.c10", "depth2_cases", 400 if ctx.tier == "quick" else 4000,
+                      per_chunk=25, canon_kw=dict(drop_zero=True))
     n = 5000 if ctx.tier == "quick" else 40000
     stream.run_stream(ctx, "bra", "harness.props.c10", "gen_cases", n, per_chunk=50,
                       canon_kw=dict(drop_zero=True))
